@@ -45,6 +45,8 @@ type C16Case struct {
 	// Symlink: FILE is a symbolic link to the real file (in the same directory)
 	Symlink bool `json:"symlink,omitempty"`
 	CRLF    bool `json:"crlf,omitempty"`
+	// LongName: the file name is so long that a temporary sibling named after it cannot be created
+	LongName bool `json:"long_name,omitempty"`
 }
 
 func init() {
@@ -115,6 +117,7 @@ func genC16(t *rapid.T) any {
 		}
 	}
 	c.Symlink = rapid.IntRange(0, 3).Draw(t, "symlink") == 3
+	c.LongName = !c.Symlink && rapid.IntRange(0, 5).Draw(t, "longname") == 5
 	if rapid.IntRange(0, 4).Draw(t, "crlf") == 4 {
 		// a file saved with CR LF line endings (comments and long strings keep their carriage return)
 		c.Src = strings.ReplaceAll(strings.ReplaceAll(c.Src, "\r\n", "\n"), "\n", "\r\n")
@@ -166,6 +169,9 @@ func checkC16(raw json.RawMessage) iso.Result {
 	k := &c16Ctx{col: iso.NewCollector("C16"), c: c, falco: falco, root: root,
 		dir: filepath.Join(root, "d"), cwd: filepath.Join(root, "cwd"), orig: []byte(c.Src)}
 	k.file = filepath.Join(k.dir, "t.vcl")
+	if c.LongName {
+		k.file = filepath.Join(k.dir, strings.Repeat("n", 246)+".vcl")
+	}
 	os.Mkdir(k.cwd, 0o755)
 	col := k.col
 	col.Label("class:"+c.Class, "plan:"+c.Plan.Kind)
@@ -174,6 +180,9 @@ func checkC16(raw json.RawMessage) iso.Result {
 	}
 	if c.CRLF {
 		col.Label("file:crlf")
+	}
+	if c.LongName {
+		col.Label("file:long-name")
 	}
 	if c.Plan.Kind == "fsize" {
 		col.Label(fmt.Sprintf("fsize:%d", c.Plan.FSize))
